@@ -32,7 +32,7 @@ class Rig:
             self.srv = serving.ServerTls(host="127.0.0.1", port=56000, tymth=self.tymist.tymen(), context=tcpadapt.ctx(True))
         else:
             self.srv = serving.Server(host="127.0.0.1", port=56000, tymth=self.tymist.tymen())
-        self.cli = clienting.Client(host="127.0.0.1", port=56000, tymth=self.tymist.tymen())
+        self.cli = clienting.Client(host="127.0.0.1", port=56000, tymth=self.tymist.tymen(), reconnectable=True, tymeout=2.0)
         self.conns = []      # accepted-side fakes in creation order
 
     def restore(self):
@@ -78,7 +78,13 @@ class Rig:
                     self.cli.reopen()
                 elif op == "cconnect":
                     self.mod.next_connect = {"ok": 0, "wait": errno.EINPROGRESS, "refused": errno.ECONNREFUSED}[a[0]]
+                    self.cli.tymer.start()               # an ordinary attempt, the retry tymer is not due
                     self.cli.serviceConnect()
+                    self.mod.next_connect = None
+                elif op == "ctimeout":
+                    self.tymist.tick(tock=5.0)          # past the retry tymeout
+                    self.mod.next_connect = errno.EINPROGRESS
+                    self.cli.serviceConnect()            # still not connected and timed out: reopens
                     self.mod.next_connect = None
                 elif op == "cclose":
                     self.cli.close()
